@@ -126,3 +126,19 @@ pub fn twin() {
     clock.update(&rc);
     vcheck!(false, "twin:reachable");
 }
+
+/// checkpoint leg of recovery: an entry recovered from a checkpoint (any stamp, any author including this node before
+/// its restart) enters the shard through the ApplyRecoveredState arm; the next local write of that key must carry a
+/// stamp greater than the recovered one and must win on a peer that still holds the recovered entry.
+pub fn recovered_then_write() {
+    let t0 = vs::u64();
+    vs::assume(t0 < (1 << 62));
+    let rts = any_clock();
+    let rb = vs::u8();
+    let nb = vs::u8();
+    vs::assume(nb != rb);
+    let (stamp, served) = crate::env::recovered_then_write(t0, lww_rv(rb, false, rts, None), nb);
+    vcheck!(stamp > rts, "recovered:a write after recovery from a checkpoint carries a stamp not above the recovered one");
+    vcheck!(served == Some(nb), "recovered:a write after recovery from a checkpoint loses on a peer holding the recovered value");
+    vcover!(rts.time > t0, "recovered stamp ahead of the restarted clock");
+}
